@@ -177,6 +177,10 @@ func (t *tcpHandler) OnShutdown() {
 func (t *tcpHandler) sendCloseMsg() {
 	// send close-package
 	closeMsg := t.server.protocol.GetCloseMsg()
+	// every connection is written to on its own: a client that has stopped reading (the write
+	// blocks behind its unsent responses) must hold up neither the notice to the other clients nor
+	// the shutdown itself; the notices are given a second to go out
+	var wg sync.WaitGroup
 	t.conns.Range(func(key, val interface{}) bool {
 		conn := val.(*connInfo)
 		if err := conn.conn.SetReadDeadline(time.Now()); err != nil {
@@ -184,11 +188,24 @@ func (t *tcpHandler) sendCloseMsg() {
 		}
 		// send a reconnect-message
 		TLOG.Debugf("send close message to %v", conn.conn.RemoteAddr())
-		if _, err := conn.conn.Write(closeMsg); err != nil {
-			TLOG.Errorf("send closeMsg to %v failed %v", conn.conn.RemoteAddr(), err)
-		}
+		wg.Add(1)
+		go func() {
+			defer wg.Done()
+			if _, err := conn.conn.Write(closeMsg); err != nil {
+				TLOG.Errorf("send closeMsg to %v failed %v", conn.conn.RemoteAddr(), err)
+			}
+		}()
 		return true
 	})
+	sent := make(chan struct{})
+	go func() {
+		wg.Wait()
+		close(sent)
+	}()
+	select {
+	case <-sent:
+	case <-time.After(time.Second):
+	}
 }
 
 // CloseIdles close all idle connections(no active package within n secnods)
